@@ -71,18 +71,26 @@ def rule_r2(facts, col):
             _, held = guards_held_at_entry(body)
             probs = []
             srcs = set()
-            for i in (1, 2):
+            for i in range(1, len(t["args"])):
                 e = peel(body.operand_expr(t["args"][i]), through_try=False)
-                src = None
-                if e.k == "field" and e.a is not None:
-                    c = peel(e.a, through_try=False)
-                    if c.k == "call" and c.q == rng:
-                        src = c
-                if src is None:
+                # a bound is a component of the range snapshot: `r.0` / `r.1`, or a small struct built from them
+                # (`Window { start: r.0, end: r.1 }`)
+                comps = []
+                for x in ([e] if e.k == "field" else (e.args or []) if e.k == "agg" else [e]):
+                    x = peel(x, through_try=False)
+                    src = None
+                    if x.k == "field" and x.a is not None:
+                        c = peel(x.a, through_try=False)
+                        if c.k == "call" and c.q == rng:
+                            src = c
+                    comps.append(src)
+                if not comps or any(c is None for c in comps):
                     probs.append("bound %d is not a component of %s()" % (i, rng.split("::")[-1]))
-                elif not held.get(src.bb):
-                    probs.append("%s() is evaluated without the state lock held" % rng.split("::")[-1])
-                if src is not None:
+                for src in comps:
+                    if src is None:
+                        continue
+                    if not held.get(src.bb):
+                        probs.append("%s() is evaluated without the state lock held" % rng.split("::")[-1])
                     srcs.add(src.bb)
             if len(srcs) > 1:
                 probs.append("start and end come from two separate snapshots (state can change in between)")
@@ -240,6 +248,36 @@ def rule_r7(facts, col):
     for body in facts.bodies:
         if body.self_adt not in ("stream::ReadStream", "stream::WriteStream") or body.kind == "closure":
             continue
+        # the opener may be handed to a helper as a function item: `open_window(&self.circ, "read_buf", Buffer::read_buf)`,
+        # which performs the ceiling test and then calls it
+        for bb, t in body.calls():
+            fnargs = [a["k"]["fn"] for a in t["args"] if "k" in a and isinstance(a["k"], dict) and a["k"].get("fn")]
+            fnargs = [f_ for f_ in fnargs if f_.get("q") in (BUF_READ, BUF_WRITE)]
+            if not fnargs:
+                continue
+            key = "%s:%s" % (body.q, fnargs[0]["name"])
+            ok = False
+            for q in Body.callee_qs(t):
+                for hb in facts.by_q.get(q, []):
+                    indirect = [(b2, t2) for b2, t2 in hb.calls() if (t2["f"].get("q") or "") in ("std::ops::FnOnce::call_once", "std::ops::Fn::call", "std::ops::FnMut::call_mut")
+                                and t2["args"] and peel(hb.operand_expr(t2["args"][0]), through_try=False).k == "param"]
+                    if not indirect:
+                        continue
+                    good = True
+                    for b2, t2 in indirect:
+                        dom = False
+                        for edge, fact in edge_facts(hb):
+                            if fact[0] in ("Lt", "Le", "Gt", "Ge") and (c04.is_liveness_expr(fact[1], live_wr) or c04.is_liveness_expr(fact[2], live_wr)) \
+                                    and must_pass_edge(hb, b2, edge):
+                                dom = True
+                        good = good and dom
+                    if good:
+                        ok = True
+            if ok:
+                col.ok("C03.R7", key, body.where(bb), "window handed out by a helper that calls the opener only behind a strong_count ceiling test")
+            else:
+                col.bad("C03.R7", key, body.where(bb),
+                        "the window opener is handed to a helper that can call it without a handle-count ceiling test", {})
         for bb, t in body.calls_to({BUF_READ, BUF_WRITE}):
             key = "%s:%s" % (body.q, t["f"]["name"])
             # handed to the caller? (the call result is the return value)
